@@ -13,6 +13,7 @@ import (
 	"fmt"
 	"io"
 	"math/big"
+	"os"
 	"reflect"
 	"runtime"
 	"strings"
@@ -609,6 +610,7 @@ func errClass(err error) string {
 // ---------------------------------------------------------------- guarded calls + oracles
 
 var o *out.Out
+var dbg = os.Getenv("C16DBG") != ""
 var step int
 
 func memNow() uint64 {
@@ -654,6 +656,9 @@ func safeEncode(lib string, v interface{}) (e []byte, err error, panicked bool) 
 // decodeOp decodes h into a fresh value of t, returns the observable and runs the direct oracles.
 func decodeOp(t *T, h []byte, arbiter bool) string {
 	step++
+	if dbg {
+		fmt.Fprintf(os.Stderr, "decode [%s] %s\n", t.tokens(), hexs(h))
+	}
 	rt := t.rtype()
 	p := reflect.New(rt)
 	m0 := memNow()
@@ -690,7 +695,10 @@ func decodeOp(t *T, h []byte, arbiter bool) string {
 			o.Fail(step, cls, fmt.Sprintf("type=[%s] input=%s decodes to [%s] which encodes to %s", t.tokens(), hexs(h), ds, hexs(re)))
 		}
 	}
-	if arbiter && !t.hasOptional() && !t.hasRaw() {
+	// (go-ethereum v1.9.15 itself loops forever on a 0x00 byte decoded into a [1]byte list
+	// element — its decodeByteArray ignores the error of s.Uint() and the kind stays armed — so
+	// types containing [1]byte are not given to the arbiter's decoder)
+	if arbiter && !t.hasOptional() && !t.hasRaw() && !t.any(func(x *T) bool { return x.K == "arr" && x.N == 1 }) {
 		g := reflect.New(rt)
 		gerr, gpan := safeDecode("geth", h, g.Interface())
 		if gpan {
@@ -1360,6 +1368,10 @@ func runCase(r *gen.Rand, c int) {
 			v := reflect.New(rt).Elem()
 			wild := r.Chance(1, 4)
 			genVal(r, t, F{}, v, wild)
+			if t.K == "iface" && v.IsNil() {
+				// EncodeToBytes(nil) is an API misuse (reflect panics on the untyped nil), not an input
+				genVal(r, t, F{}, v, false)
+			}
 			ds := dump(t, v)
 			e, err, pan := safeEncode("kai", v.Interface())
 			if pan {
